@@ -16,34 +16,8 @@ import Hx.Spec.Chk
 import Hx.Lemmas.Wrappers
 namespace Hx
 
-/-- one earlier call: configuration and buffer -/
-structure Call where
-  cfg : Config
-  buf : List Byte
-
-/-- state of a reused value: its fields, the current `headers.len()`, and the array -/
-structure Reused (V : Type) where
-  h : Handle V
-  arr : Arr
-
-def runHistReq (be : Backend) (s : Reused ReqVal) : List Call → Reused ReqVal
-  | [] => s
-  | c :: cs =>
-    let r := callInit (fun n v => reqCore be c.cfg n c.buf v) s.h s.arr
-    runHistReq be ⟨⟨r.val, r.viewLen⟩, r.arr⟩ cs
-
-def runHistResp (be : Backend) (s : Reused RespVal) : List Call → Reused RespVal
-  | [] => s
-  | c :: cs =>
-    let r := callInit (fun n v => respCore be c.cfg n c.buf v) s.h s.arr
-    runHistResp be ⟨⟨r.val, r.viewLen⟩, r.arr⟩ cs
-
-/-- observation of a probe call on a (possibly reused) value -/
-def probeReq (be : Backend) (cfg : Config) (buf : List Byte) (s : Reused ReqVal) : Obs :=
-  Obs.ofCall ReqVal.spans ReqVal.nums (callInit (fun n v => reqCore be cfg n buf v) s.h s.arr) true []
-
-def probeResp (be : Backend) (cfg : Config) (buf : List Byte) (s : Reused RespVal) : Obs :=
-  Obs.ofCall RespVal.spans RespVal.nums (callInit (fun n v => respCore be cfg n buf v) s.h s.arr) true []
+/- `Call`, `Reused`, `runHistReq`, `runHistResp`, `probeReq`, `probeResp` are defined in
+   `Hx.Lemmas.WrapBasic` (moved there verbatim: `runHistReq_view_le` is stated about them). -/
 
 theorem c18_request_core (be : Backend) (cfg : Config) (cap : Nat) (buf : List Byte) (v : ReqVal) :
     let r := reqCore be cfg cap buf v
